@@ -1904,9 +1904,65 @@ def ctx_slice_param(body):
     return 99
 
 
+_CL_CONTEXTS = {}
+
+
+def closure_call_contexts(prog, fn):
+    """For a closure that its parent only ever CALLS (`let f = |i| ..; f(0); f(k)`; never handed to an adapter or stored):
+    one {argN: (lo, hi)} box per call site with the proven range of each integer argument.  None otherwise."""
+    key = (id(prog), fn)
+    if key in _CL_CONTEXTS:
+        return _CL_CONTEXTS[key]
+    _CL_CONTEXTS[key] = None
+    b = prog.bodies.get(fn)
+    if b is None or "{closure" not in fn:
+        return None
+    parent = fn.rsplit("::{closure", 1)[0]
+    cb = prog.bodies.get(parent)
+    if cb is None:
+        return None
+    from .invariants import tighten
+    from .terms import walk as _walk
+    tag = "closure:" + fn
+    cctx = Ctx(prog, cb)
+    cctx._in_context = True
+    tm = cctx.an.terms
+    out = []
+    for bb, t in cb.calls():
+        args = [tm.operand(a) for a in t["args"]]
+        mentions = [i for i, a in enumerate(args) if any(isinstance(x, tuple) and len(x) > 1 and x[0] == "aggr" and x[1] == tag for x in _walk(a))]
+        if not mentions:
+            continue
+        if not (cname(t) == fn or (t.get("resolved") or "") == fn or short(cname(t)) in ("Fn::call", "FnMut::call_mut", "FnOnce::call_once")) or mentions != [0]:
+            return None                      # passed on as a value: it can be called with anything
+        recv = strip(args[0])
+        while recv[0] in ("ref", "deref"):
+            recv = strip(recv[1])
+        if not (recv[0] == "aggr" and recv[1] == tag) or len(args) < 2:
+            return None
+        tup = strip(args[1])
+        if not (tup[0] == "aggr" and tup[1] == "tuple"):
+            return None
+        box = {}
+        for k, a in enumerate(tup[2]):
+            i = k + 2
+            if i > b.argc or b.locals[i]["ty"].get("k") != "int":
+                continue
+            p = cctx.sy.poly(a)
+            if p is None:
+                continue
+            pr, _, _ = cctx.prover_at(bb, [p])
+            lo, hi = poly_interval(p, pr.box)
+            lo, hi = tighten(pr, p, lo, hi)
+            box["arg%d" % i] = (None if lo is None else int(lo), None if hi is None else int(hi))
+        out.append((parent, box))
+    _CL_CONTEXTS[key] = out or None
+    return _CL_CONTEXTS[key]
+
+
 def under_call_contexts(ctx, o):
     """a private helper's obligation holds if it holds under the argument ranges of each of its call sites"""
-    cs = call_contexts(ctx.prog, ctx.body.path)
+    cs = call_contexts(ctx.prog, ctx.body.path) or closure_call_contexts(ctx.prog, ctx.body.path)
     if not cs:
         return False, ""
     for caller, box in cs:
